@@ -38,7 +38,7 @@ DESC = {
  ("wt_C06",4):("C06","lzhuf","byte-wise pre-fill replaced by copy + InsertNode loop","first 60 bytes arriving in more than one Write, input starting with spaces"),
 }
 results = {}
-for f in glob.glob('/tmp/seedbatch*.txt') + glob.glob('/tmp/seedfirst.txt') + glob.glob('/tmp/seedfinal*.txt'):
+for f in ['/tmp/seedfirst.txt'] + sorted(glob.glob('/tmp/seedbatch*.txt')) + sorted(glob.glob('/tmp/seedfinal*.txt')):
     for l in open(f):
         m = re.match(r'SEED (wt_C\d+)/(\d+): clean-demo=(\d+) build=(\d+) suite=(\d+) demo-with-patch=(\d+) checks:(.*)', l)
         if m:
